@@ -48,6 +48,8 @@ def run(ctx):
     skippers.arms_agree(rep, 'R12.b', prog)
     skippers.struct_loop(rep, 'R12.b', prog)
     skippers.struct_pairing(rep, 'R12.b', prog)
+    # the compact reader's field-id context / bool-in-header state is kept the same way by the in-memory and the async reader
+    tp.compact_typestate(rep, 'R12.t', prog, cg)
     rep.floor('R12.a', 66)
     rep.floor('R12.c', 30)
     rep.floor('R12.b', 28)
